@@ -61,6 +61,10 @@ def definitions(tier):
         out.append([dict(stream='synnum', start=start, duration=dur, tracks=[('video', 1), ('audio', 2)])])
     out.append([dict(stream='synnum', start=4.0, duration=4.0, tracks=[('video', 1), ('audio', 2)]),
                 dict(stream='bbb', start=8.0, duration=8.0, tracks=[('video', 1), ('audio', 2)])])
+    # Period durations that sum to a fraction of a second
+    out.append([dict(stream='bbb', start=0.0, duration=12.5, tracks=[('video', 1), ('audio', 2)]),
+                dict(stream='tears', start=8.0, duration=8.0, tracks=[('video', 1), ('audio', 2)])])
+    out.append([dict(stream='bbb', start=4.0, duration=6.25, tracks=[('video', 1), ('audio', 2)])])
     # a text track, which has fewer and longer segments than the timing reference of its stream (bbb_t1: 4 x 10 s)
     for start, dur in ((0.0, 40.0), (10.0, 20.0), (4.0, 12.0)):
         out.append([dict(stream='bbb', start=start, duration=dur, tracks=[('video', 1), ('audio', 2), ('text', 4)])])
@@ -365,9 +369,11 @@ def run(ctx):
     for di, periods in enumerate(defs):
         total = sum(p['duration'] for p in periods)
         items.append((di, periods, 'vod', {}, [0]))
-        if ctx.quick and di % 3:
+        if ctx.quick and di % 3 and total == int(total):
             continue
         offs = [total * 0.4, total + 1.0, 3 * total + 0.5 * periods[0]['duration']]
+        if total != int(total):
+            offs.append(57 * total + 3.0)       # many repetitions later: a rounding of the total would have added up
         if not ctx.quick:
             offs += [total - 0.000001, 2 * total + periods[0]['duration'] + 0.000001, 45.0]
         items.append((di, periods, 'live', {}, offs))
